@@ -283,7 +283,13 @@ class Report(PropertyTreeNode, MessageHandler):
         """
         output_dir = self.project.outputDir or "./"
         base_name = self.name or self.id
-        return Path(output_dir) / f"{base_name}.{extension}"
+        path = Path(output_dir) / f"{base_name}.{extension}"
+        # A report name may contain sub-directories, but it must not lead out of the output
+        # directory ("../x" or an absolute name would write next to, or anywhere outside, it)
+        root = Path(output_dir).resolve()
+        if root != path.resolve().parent and root not in path.resolve().parents:
+            raise ValueError(f"Report file name '{base_name}' leads outside the output directory")
+        return path
 
     def _generate_json(self) -> None:
         """Generate JSON output."""
